@@ -13,9 +13,11 @@ Faithfulness notes (what is transcribed, line numbers of util/file_piece.cc):
   (how many plain bytes it has delivered).
 * `shift` = `Shift` (252-266), `mmapShift` = `MMapShift` (273-309, incl. the EINVAL fall
   back to read() for a zero-length map), `readShift` = `ReadShift` (327-365).
-* `Cfg.fixH` / `Cfg.fixI` select the repaired code (true) or today's code (false):
+* `Cfg.fixH` / `Cfg.fixI` / `Cfg.fixF` select the repaired code (true) or today's code (false):
   H: `ReadShift`'s memmove branch adds the discarded prefix to `mapped_offset_`;
-  I: `peek()` throws after `Shift()` iff `position_ == position_end_` (today: iff `at_end_`).
+  I: `peek()` throws after `Shift()` iff `position_ == position_end_` (today: iff `at_end_`);
+  F: `MMapShift`'s fall back to read() after a failed mmap sets `mapped_offset_ = desired_begin`
+     (today: left at the offset of the window that was just unmapped).
 * The number grammar (`strtol`, `strtoul`, double-conversion) is the parameter `P` of
   `readNumber`: it receives exactly the bytes the C++ passes to `ParseNumber`.
 No Mathlib. Everything is computable and used unchanged by the native driver.
@@ -34,6 +36,7 @@ structure Cfg where
   page : Nat := 4096
   fixH : Bool := true
   fixI : Bool := true
+  fixF : Bool := true
   deriving Repr
 
 /-- the environment an execution runs in: the (decompressed) bytes of the input, and the
@@ -42,6 +45,9 @@ structure Env where
   cfg : Cfg
   bytes : List Byte
   orc : Nat → Nat
+  /-- does `mmap` of the window starting at this (page-aligned) file offset fail?  (adversarial; a
+  zero-length map always fails with EINVAL) -/
+  mmapFail : Nat → Bool := fun _ => false
 
 /-- result of `fell_back_.Read(to, req)` issued when `i` plain bytes have been delivered and
 `avail` remain: `0` iff nothing remains (or nothing was requested), else any number in
@@ -61,6 +67,9 @@ structure St where
   atEnd : Bool
   started : Bool
   readOff : Nat
+  /-- bytes of the `kMagicSize` header that `ReadFactory` read ahead and `UncompressedWithHeader` still has to
+  hand out before it passes the descriptor to `Uncompressed` (read_compressed.cc:77-106, 358-394) -/
+  hdrLeft : Nat
   deriving Repr
 
 /-- `[position_, position_end_)` -/
@@ -92,9 +101,13 @@ def computeLs1 (win : List Byte) (pos : Nat) : Nat := pos + lastIdx1 isSpace (wi
 
 /-! ### Shift -/
 
-/-- `TransitionToRead` followed by nothing: a fresh empty buffer; the reader continues at `from`. -/
-def transitionToRead (st : St) (frm : Nat) : St :=
-  { st with mode := .read, win := [], pos := 0, readOff := frm, started := true }
+/-- `ReadCompressed::kMagicSize` (regenerated and compared in Properties/C18) -/
+def kMagicSize : Nat := 6
+
+/-- `TransitionToRead`: a fresh empty buffer; `fell_back_.Reset(fd)` = `ReadFactory` reads `kMagicSize` bytes ahead
+(`hdr`); the reader continues at `frm`.  (`Reset(istream)` reads nothing ahead: `hdr = 0`.) -/
+def transitionToRead (st : St) (frm : Nat) (hdr : Nat := kMagicSize) : St :=
+  { st with mode := .read, win := [], pos := 0, readOff := frm, started := true, hdrLeft := hdr }
 
 def readShift (env : Env) (st : St) : St :=
   -- "Start at the beginning of the buffer if there's nothing useful in it."
@@ -107,9 +120,11 @@ def readShift (env : Env) (st : St) : St :=
                       mappedOffset := if env.cfg.fixH then st1.mappedOffset + st1.pos
                                       else st1.mappedOffset }
     else st1
-  let n := chunk env.orc st2.readOff (st2.mapSize - st2.win.length) (env.bytes.length - st2.readOff)
+  -- `UncompressedWithHeader::Read` hands out at most the rest of the header; afterwards the OS decides
+  let want := if st2.hdrLeft > 0 then st2.hdrLeft else env.orc st2.readOff
+  let n := chunk (fun _ => want) st2.readOff (st2.mapSize - st2.win.length) (env.bytes.length - st2.readOff)
   { st2 with win := st2.win ++ (env.bytes.drop st2.readOff).take n,
-             readOff := st2.readOff + n,
+             readOff := st2.readOff + n, hdrLeft := st2.hdrLeft - n,
              atEnd := st2.atEnd || n == 0 }
 
 def mmapShift (env : Env) (st : St) : St :=
@@ -119,13 +134,15 @@ def mmapShift (env : Env) (st : St) : St :=
   let mapSize := if st.pos = ignore ∧ st.started then 2 * st.mapSize else st.mapSize
   let mo := desired - ignore
   let total := env.bytes.length
-  if mapSize ≥ total - mo then
-    if total - mo = 0 then
-      -- mmap of length 0 fails (EINVAL): `at_end_ = false; TransitionToRead()`; Shift then calls ReadShift
-      readShift env (transitionToRead { st with mapSize := mapSize, atEnd := false } desired)
-    else
-      { st with mapSize := mapSize, mappedOffset := mo, win := (env.bytes.drop mo).take (total - mo),
-                pos := ignore, atEnd := true, started := true }
+  if total - mo = 0 ∨ env.mmapFail mo then
+    -- mmap failed (EINVAL for an empty range, or the kernel refused): `SeekOrThrow(desired_begin);
+    -- at_end_ = false; TransitionToRead(); return;` and Shift then calls ReadShift
+    readShift env (transitionToRead
+      { st with mapSize := mapSize, atEnd := false,
+                mappedOffset := (if env.cfg.fixF then desired else st.mappedOffset) } desired)
+  else if mapSize ≥ total - mo then
+    { st with mapSize := mapSize, mappedOffset := mo, win := (env.bytes.drop mo).take (total - mo),
+              pos := ignore, atEnd := true, started := true }
   else
     { st with mapSize := mapSize, mappedOffset := mo, win := (env.bytes.drop mo).take mapSize,
               pos := ignore, atEnd := false, started := true }
@@ -149,20 +166,20 @@ def initMapSize (page minBuffer : Nat) : Nat := page * max (minBuffer / page + 1
 inductive Backend
   | file      -- regular uncompressed file: mmap, `Initialize` performs the first Shift
   | pipe      -- read() from the start, `Initialize` performs the first Shift
-  | lazy      -- std::istream constructor, and a regular *compressed* file after the magic was seen:
-              -- read mode, empty buffer, no Shift yet
+  | lazy      -- std::istream constructor (and, up to read sizes, a regular *compressed* file after the magic
+              -- was seen): read mode, empty buffer, no Shift yet, nothing read ahead
   deriving DecidableEq, Repr
 
 def st0 (page minBuffer : Nat) (mode : Mode) : St :=
   { mode := mode, mapSize := initMapSize page minBuffer, mappedOffset := 0, win := [], pos := 0,
-    ls1 := 0, atEnd := false, started := false, readOff := 0 }
+    ls1 := 0, atEnd := false, started := false, readOff := 0, hdrLeft := 0 }
 
 def init (env : Env) (minBuffer : Nat) : Backend → St
   | .file => match shift env (st0 env.cfg.page minBuffer .mmap) with
     | .ok st => st | .error _ => st0 env.cfg.page minBuffer .mmap
   | .pipe => match shift env (transitionToRead (st0 env.cfg.page minBuffer .read) 0) with
     | .ok st => st | .error _ => st0 env.cfg.page minBuffer .read
-  | .lazy => transitionToRead (st0 env.cfg.page minBuffer .read) 0
+  | .lazy => transitionToRead (st0 env.cfg.page minBuffer .read) 0 0
 
 /-! ### operations -/
 
